@@ -112,25 +112,35 @@ Example C04_modules_example :
   pcache (state_after true true true mod_parse true (fresh []) [1; 3; 1]) = [].
 Proof. vm_compute. repeat split; reflexivity. Qed.
 
+(* what the model's `pure` stands for: no verb implementation stores into its parameters, and no memo table / cache
+   decorator in the value layer can hand the same mutable array to two evaluations (both regenerated by scans) *)
+Definition verbs_pure : bool := no_verb_stores_into_operands && no_array_caches_in_backends.
+
+(* the reader passes the active module on at every call that can meet a symbol, so the parser IS a function of
+   (text, active module) as C04_cache_transparent assumes; stops type-checking otherwise *)
+Theorem C04_reader_threads_module : module_threaded_through_reader = true.
+Proof. exact eq_refl. Qed.
+Print Assumptions C04_reader_threads_module.
+
 (* T4.views — arrays are buffers, drop / take / reverse return views of the operand's buffer and
    amend clones first (regenerated flag): for every statement sequence, a variable that is not
    itself assigned keeps its value, and no buffer that existed is ever written. *)
 Theorem C04_views_unobservable : forall p st k,
   env_ok st -> ~ In k (map target p) ->
-  value_of (exec_all amend_clones_first no_verb_stores_into_operands st p) k = value_of st k.
+  value_of (exec_all amend_clones_first verbs_pure st p) k = value_of st k.
 Proof.
-  exact (eq_ind_r (fun f => forall p st k, env_ok st -> ~ In k (map target p) -> value_of (exec_all f no_verb_stores_into_operands st p) k = value_of st k)
-           (eq_ind_r (fun g => forall p st k, env_ok st -> ~ In k (map target p) -> value_of (exec_all true g st p) k = value_of st k) views_unobservable (eq_refl : no_verb_stores_into_operands = true))
+  exact (eq_ind_r (fun f => forall p st k, env_ok st -> ~ In k (map target p) -> value_of (exec_all f verbs_pure st p) k = value_of st k)
+           (eq_ind_r (fun g => forall p st k, env_ok st -> ~ In k (map target p) -> value_of (exec_all true g st p) k = value_of st k) views_unobservable (eq_refl : verbs_pure = true))
            (eq_refl : amend_clones_first = true)).
 Qed.
 Print Assumptions C04_views_unobservable.
 
 Theorem C04_buffers_immutable : forall p st l,
   env_ok st -> (l < length (hp st))%nat ->
-  hget (hp (exec_all amend_clones_first no_verb_stores_into_operands st p)) l = hget (hp st) l.
+  hget (hp (exec_all amend_clones_first verbs_pure st p)) l = hget (hp st) l.
 Proof.
-  exact (eq_ind_r (fun f => forall p st l, env_ok st -> (l < length (hp st))%nat -> hget (hp (exec_all f no_verb_stores_into_operands st p)) l = hget (hp st) l)
-           (eq_ind_r (fun g => forall p st l, env_ok st -> (l < length (hp st))%nat -> hget (hp (exec_all true g st p)) l = hget (hp st) l) buffers_immutable (eq_refl : no_verb_stores_into_operands = true))
+  exact (eq_ind_r (fun f => forall p st l, env_ok st -> (l < length (hp st))%nat -> hget (hp (exec_all f verbs_pure st p)) l = hget (hp st) l)
+           (eq_ind_r (fun g => forall p st l, env_ok st -> (l < length (hp st))%nat -> hget (hp (exec_all true g st p)) l = hget (hp st) l) buffers_immutable (eq_refl : verbs_pure = true))
            (eq_refl : amend_clones_first = true)).
 Qed.
 Print Assumptions C04_buffers_immutable.
@@ -140,10 +150,10 @@ Print Assumptions C04_buffers_immutable.
    its operand's value — given the regenerated fact that no verb implementation stores into its parameters) EVERY variable holds
    exactly the value that the same program computes over a store of immutable lists. *)
 Theorem C04_values_are_immutable : forall p k,
-  value_of (exec_all amend_clones_first no_verb_stores_into_operands (mk_hstate [] []) p) k = pget k (pure_exec_all [] p).
+  value_of (exec_all amend_clones_first verbs_pure (mk_hstate [] []) p) k = pget k (pure_exec_all [] p).
 Proof.
-  exact (eq_ind_r (fun f => forall p k, value_of (exec_all f no_verb_stores_into_operands (mk_hstate [] []) p) k = pget k (pure_exec_all [] p))
-           (eq_ind_r (fun g => forall p k, value_of (exec_all true g (mk_hstate [] []) p) k = pget k (pure_exec_all [] p)) heap_is_immutable_store (eq_refl : no_verb_stores_into_operands = true))
+  exact (eq_ind_r (fun f => forall p k, value_of (exec_all f verbs_pure (mk_hstate [] []) p) k = pget k (pure_exec_all [] p))
+           (eq_ind_r (fun g => forall p k, value_of (exec_all true g (mk_hstate [] []) p) k = pget k (pure_exec_all [] p)) heap_is_immutable_store (eq_refl : verbs_pure = true))
            (eq_refl : amend_clones_first = true)).
 Qed.
 Print Assumptions C04_values_are_immutable.
